@@ -208,7 +208,7 @@ def raire_reader_facts(fn):
         sts = [(t, v, s0) for t, v, s0 in stores(inner[0])]
         if len(sts) == 1 and isinstance(sts[0][0], ast.Subscript) and isinstance(sts[0][0].value, ast.Name):
             t, v, s0 = sts[0]
-            rank = dict(j=norm(inner[0].target), start=inner[0].iter.args[0], stop=norm(inner[0].iter.args[1]), key=norm(t.slice), value=v,
+            rank = dict(j=norm(inner[0].target), start=inner[0].iter.args[0], stop=norm(inner[0].iter.args[1]), stop_node=inner[0].iter.args[1], key=norm(t.slice), key_node=t.slice, value=v,
                         votes=t.value.id, fresh=None)
             loc = {norm(a.targets[0]): norm(a.value) for a in inside if isinstance(a, ast.Assign) and isinstance(a.targets[0], ast.Name)}
             rank["fresh"] = loc.get(t.value.id) == "{}"
@@ -217,7 +217,7 @@ def raire_reader_facts(fn):
                 and norm(dc.generators[0].iter.func) == "range" and len(dc.generators[0].iter.args) == 2:
             g = dc.generators[0]
             holder = [a for a in inside if isinstance(a, ast.Assign) and a.value is dc and isinstance(a.targets[0], ast.Name)]
-            rank = dict(j=norm(g.target), start=g.iter.args[0], stop=norm(g.iter.args[1]), key=norm(dc.key), value=dc.value,
+            rank = dict(j=norm(g.target), start=g.iter.args[0], stop=norm(g.iter.args[1]), stop_node=g.iter.args[1], key=norm(dc.key), key_node=dc.key, value=dc.value,
                         votes=holder[0].targets[0].id if holder else norm(dc), fresh=True)
     out["rank"] = rank
     calls = [c for c in inside if isinstance(c, ast.Call) and norm(c.func) in ("CVR.from_vote", "cls.from_vote")]
@@ -239,6 +239,24 @@ def raire_reader_facts(fn):
     return out
 
 
+def column_and_rank(rk, row):
+    """-> (column index, rank, range start, range stop) as sympy expressions in the loop variable j and len(row), or None"""
+    kn = rk.get("key_node")
+    if isinstance(kn, ast.Call) and norm(kn.func) == "str" and len(kn.args) == 1:
+        kn = kn.args[0]
+    if not (isinstance(kn, ast.Subscript) and norm(kn.value) == row):
+        return None
+    tx = Tx(env={rk["j"]: E(S("j"))})
+    try:
+        K, R = tx.expr(kn.slice), tx.expr(rk["value"])
+        a, b = Tx().expr(rk["start"]), Tx().expr(rk["stop_node"])
+    except symx.Unsupported:
+        return None
+    if not all(isinstance(x, E) for x in (K, R, a, b)):
+        return None
+    return K.e, R.e, a.e, b.e
+
+
 def r5(chk):
     fn0 = chk.fn(REL, "CVR.from_raire")
     where = W("CVR.from_raire")
@@ -254,9 +272,16 @@ def r5(chk):
         start = Tx().expr(rk["start"])
         rank = Tx(env={rk["j"]: E(S("j"))}).expr(rk["value"])
         detail = dict(start=sp.sstr(start.e) if isinstance(start, E) else None, rank=norm(rk["value"]), key=rk["key"])
-        # the k-th listed candidate (k = j - start + 1) gets rank k; candidates start at column 2
-        ok_rank = isinstance(rank, E) and isinstance(start, E) and is_zero(rank.e - (S("j") - start.e + 1)) and start.e == 2 \
-            and rk["stop"] == f"len({row})" and rk["key"] in (f"str({row}[{rk['j']}])", f"{row}[{rk['j']}]")
+        # the loop variable may run over the columns (j = 2 .. len(row)-1, rank j - 1) or over the ranks (k = 1 .. len(row)-2, column
+        # k + 1): what matters is column(j) and rank(j) as functions of the loop variable
+        col = column_and_rank(rk, row)
+        ok_rank = False
+        if col is not None:
+            K, R, a, b = col  # column(j), rank(j), start, stop as sympy expressions in j / len(row)
+            j_ = S("j")
+            L_ = Tx().expr(ast.parse(f"len({row})", mode="eval").body).e
+            ok_rank = is_zero(sp.diff(K, j_) - 1) and is_zero(K.subs(j_, a) - 2) and is_zero(K.subs(j_, b) - L_) and is_zero(R - K + 1)
+            detail.update(column=sp.sstr(K), rank_of_column=sp.sstr(sp.simplify(R - K)))
     fv = F.get("from_vote")
     if fv is not None and fv.args and rk is not None:
         kw = {k.arg: norm(k.value) for k in fv.keywords}
